@@ -1237,8 +1237,15 @@ impl UnifiedCommandExecutor {
                 let ttl = self.storage.ttl(db, &key)?;
                 match ttl {
                     Some(duration) => {
-                        let secs = duration.as_secs() as i64;
-                        Ok(RespFrame::Integer(if secs == 0 && duration.subsec_millis() > 0 { 1 } else { secs }))
+                        // as the TTL handler: -2 once the deadline is reached, otherwise the remaining time rounded UP
+                        // to whole seconds (flooring answered 9 right after EXPIRE k 10, and 0 for a live key)
+                        Ok(RespFrame::Integer(if duration.is_zero() {
+                            -2
+                        } else if duration.subsec_nanos() > 0 {
+                            duration.as_secs() as i64 + 1
+                        } else {
+                            duration.as_secs() as i64
+                        }))
                     }
                     None => {
                         if self.storage.exists(db, &key)? {
